@@ -244,6 +244,17 @@ def build_templates(bdir, rnd, tier):
         T.append(("jose_jwe_dec_io", [jwe, NUL, dk], [], tag))
         T.append(("jose_jwe_dec_jwk", [jwe, NUL, dk], [], tag))
         T.append(("zip_in_protected_header", [jwe], [], tag))
+        # keys that DECLARE an algorithm: the recipient key naming the header's alg (for "dir": the enc, as the library
+        # documents), and key sets that also hold a key made for another algorithm -- the comparisons of the key's alg
+        # with header members then run on every mutated header, also when "enc" / "alg" have been deleted from it
+        if isinstance(dk, dict) and (wrap in ("dir", "A128KW", "A256GCMKW", "ECDH-ES", "ECDH-ES+A128KW", "RSA-OAEP") or wrap.startswith("PBES2-HS256")):
+            named = dict(dk, alg=enc if wrap == "dir" else wrap)
+            foreign = G.oct_key(rnd, 32, alg="A256KW")
+            T.append(("jose_jwe_dec", [jwe, NUL, named], [], tag + ":key-alg"))
+            T.append(("jose_jwe_dec_jwk", [jwe, NUL, named], [], tag + ":key-alg"))
+            T.append(("jose_jwe_dec", [jwe, NUL, {"keys": [foreign, dk]}], [], tag + ":keyset-foreign-alg"))
+            T.append(("jose_jwe_dec_io", [jwe, NUL, [foreign, named]], [], tag + ":keyset-foreign-alg"))
+            T.append(("jose_jwe_dec_jwk", [jwe, NUL, [foreign, dk]], [], tag + ":keyset-foreign-alg"))
         ek = k if k["kty"] == "oct" else G.pub_of(k)
         T.append(("jose_jwe_enc", [tmpl, NUL, ek], [payload.hex()], tag))
         T.append(("jose_jwe_enc_io", [tmpl, NUL, ek], [payload.hex()], tag))
